@@ -129,6 +129,7 @@ open request, nothing else of the class map changes. -/
 theorem recv_spec {s : Sys} (hr : Reachable s) (hnl : NoLimits s.ca) {r : Rcn} {rc : Rc} {ki : KeyId}
     (hg : get s.ca.classes r = some rc)
     (hk : (∃ b, rc.keys = .pending ⟨ki, b⟩) ∨ (∃ c, rc.keys = .active c ∧ c.id = ki)) (cert : Cert) (na : Int) :
+    s.receiveOrDrop r ki cert na = s.next (.updateRcvdCert r ki cert na []) ∧
     Reachable (s.next (.updateRcvdCert r ki cert na [])) ∧
     NoLimits (s.next (.updateRcvdCert r ki cert na [])).ca ∧
     (s.next (.updateRcvdCert r ki cert na [])).ca.hasRepo = s.ca.hasRepo ∧
@@ -173,10 +174,11 @@ theorem recv_spec {s : Sys} (hr : Reachable s) (hnl : NoLimits s.ca) {r : Rcn} {
   obtain ⟨evs, rc', hp, hon, happl, h1, h2, h3, h4⟩ := hev
   obtain ⟨s', hex, happ, hr'⟩ := stored_of_process hr (c := _) (by exact trivial) hp
   have hn : s.next (.updateRcvdCert r ki cert na []) = s' := by unfold Sys.next; rw [hex]
+  have hrd : s.receiveOrDrop r ki cert na = s' := by unfold Sys.receiveOrDrop; rw [hex]
   rw [hn]
   obtain ⟨rc'', ha, hb, hc, hd, he, _, _, _⟩ := applyAll_of_rc hon hg happ
   rw [happl] at ha; cases ha
-  refine ⟨hr', ?_, he, hd, hc, rc', hb, h1, h2, h3⟩
+  refine ⟨hrd, hr', ?_, he, hd, hc, rc', hb, h1, h2, h3⟩
   intro r2 rc2 hg2
   by_cases hr2 : r2 = r
   · subst hr2; rw [hb] at hg2; cases hg2; exact h4
